@@ -18,8 +18,11 @@ import (
 	"fmt"
 	"io"
 	"log/slog"
+	"os"
+	"path/filepath"
 	"regexp"
 	"runtime/debug"
+	"sort"
 	"strings"
 
 	"github.com/ajitpratap0/GoSQLX/pkg/models"
@@ -461,7 +464,7 @@ func Check() *common.Check {
 		Rule: "every history over the parser alphabet (17 operations: Parse valid/invalid, ParseWithPositions multi-line invalid, ParseContext live / already cancelled / cancelled at the 6th poll, " +
 			"ParseWithRecovery, parse past the recursion limit, ApplyOptions strict / mysql, Reset, Release, PutParser with the same object then used as the next holder's, NewParser) and the tokenizer alphabet " +
 			"(11 operations: Tokenize valid / unterminated string / comments / larger than MaxInputSize, TokenizeContext cancelled / cancelled at the 4th poll, SetDialect, SetLogger, Reset, PutTokenizer, New) of length 0..4 (quick) / 0..5 (thorough), " +
-			"each executed from a newly constructed instance with the reference configuration in lock-step, followed by each of 15 parser (two of them ParseWithPositions on hand-built conversion results without / with a short position table, three of them observing where the context is polled and where a cancellation at the 4th / 9th poll lands) / 9 tokenizer probes (three of them inputs without a token) on its own re-execution; plus one-operation histories feeding every proper token prefix of 10 statements and 6 inputs nested past the depth limit to each of 4 parse entry points, " +
+			"each executed from a newly constructed instance with the reference configuration in lock-step, followed by each of 15 parser (two of them ParseWithPositions on hand-built conversion results without / with a short position table, three of them observing where the context is polled and where a cancellation at the 4th / 9th poll lands) / 9 tokenizer probes (three of them inputs without a token) on its own re-execution; plus one-operation histories feeding 24 statements of kinds outside the model grammar (utility, session, role, dialect statements), every corpus file under /repo/testdata, every proper token prefix of 10 statements and 6 inputs nested past the depth limit to each of 4 parse entry points, " +
 			"and every byte prefix of 3 inputs to both tokenize entry points; pool hand-out: every history of length <=5 (6) over 9 pool operations (GetParser, configure + parse, PutParser, Release + PutParser, ParseMultiWithRecovery, RecoveryResult.Release once / again, GetTokenizer, use + PutTokenizer) on the real pools (one P, collector off): no instance owned twice at any step or in the final drain, every parser handed out answers the probes like a new one; distinct = distinct history; non-trivial = at least two operations",
 		Assume: []string{
 			"reference model: configuration = (strict, dialect) for a parser, (dialect) for a tokenizer; New/Get/Put give the default, ApplyOptions/SetDialect update it, Parser.Reset gives the default (documented: clears the state for reuse from the pool), Parser.Release keeps it (same holder), Tokenizer.Reset keeps the dialect (documented 'Keywords preserved'; Tokenize calls it)",
@@ -546,6 +549,33 @@ func Check() *common.Check {
 					inputs = append(inputs, sql)
 				}
 			})
+			// statement kinds outside the model grammar (utility, session, role and dialect statements), accepted and not, and
+			// every corpus file of the repository: whatever a statement is taken for must not be written into the parser
+			for _, sql := range []string{"SHOW TABLES", "SHOW COLUMNS FROM t1", "SHOW", "DESCRIBE t1", "EXPLAIN SELECT c1 FROM t1", "REPLACE INTO t1 (c1) VALUES (1)",
+				"REPLACE t1 (c1) VALUES (1)", "SELECT 1; SHOW DATABASES", "SET x = 1", "USE db1", "BEGIN", "COMMIT", "CALL p1()", "PRAGMA table_info(t1)",
+				"GRANT SELECT ON t1 TO r1", "CREATE ROLE r1", "ALTER ROLE r1 WITH LOGIN", "DROP ROLE r1", "ALTER POLICY p1 ON t1 USING (c1 = 1)", "CREATE TRIGGER g1 AFTER INSERT ON t1 FOR EACH ROW EXECUTE FUNCTION f1()",
+				"SELECT TOP 5 c1 FROM t1", "SELECT c1 FROM t1 LIMIT 5, 10", "SELECT * FROM t1 WITH (NOLOCK)", "SELECT c1 FROM t1 QUALIFY ROW_NUMBER() OVER (ORDER BY c1) = 1"} {
+				inputs = append(inputs, sql)
+			}
+			var corpus []string
+			filepath.Walk("/repo/testdata", func(p string, info os.FileInfo, err error) error {
+				if err == nil && !info.IsDir() && strings.HasSuffix(p, ".sql") {
+					corpus = append(corpus, p)
+				}
+				return nil
+			})
+			sort.Strings(corpus)
+			for _, p := range corpus {
+				b, err := os.ReadFile(p)
+				if err != nil {
+					continue
+				}
+				if tk, terr := tokenizer.New(); terr == nil {
+					if _, terr = tk.Tokenize(b); terr == nil {
+						inputs = append(inputs, string(b))
+					}
+				}
+			}
 			pprobes := probe.ParserProbes()
 			for _, in := range inputs {
 				for _, en := range entries {
